@@ -37,7 +37,7 @@ var flagPosFields = map[string]bool{
 var dropField = map[string]bool{
 	"Doc": true, "Comment": true, "Comments": true, "Obj": true, "Scope": true, "Unresolved": true, "Imports": true,
 	"Extra": true, "Code": true, "ShadowEntry": true, "NoPkgDecl": false, "IsProj": false, "IsClass": false, "IsNormalGox": false,
-	"Incomplete": true, "FileStart": true, "FileEnd": true, "GoVersion": true,
+	"Incomplete": true, "Implicit": true, "FileStart": true, "FileEnd": true, "GoVersion": true,
 }
 
 func dump(b *strings.Builder, v reflect.Value) {
